@@ -466,7 +466,37 @@ def main_check(h, tier, seed, replay=None):
                                          'broken_obligations': broken})
         lines.append('VIOLATION property=%s replay=%s' % (pid, replay_path))
         exit_code = 1
-    elif broken:
+    elif broken and not replay:
+        # a proof obligation or the correspondence no longer checks: search for a concrete input on which the
+        # implementation violates the property's own statement (direct oracle only, fresh cases)
+        extra_found = None
+        searched = 0
+        t_search = time.time()
+        rnd2 = random.Random(seed + 7919)
+        try:
+            extra = list(h.gen_cases(tier, rnd2, 3 * n))
+        except Exception:
+            extra = []
+        for case in extra:
+            if time.time() - t_search > 240:
+                break
+            obs = run_impl(h, case)
+            searched += 1
+            if 'harness_exception' in obs:
+                continue
+            vs = [v for v in h.direct(case, obs) if not any(h.known_match(f, v) for f in live_known)]
+            if vs:
+                extra_found = (case, obs, vs[0])
+                break
+        report['search'] = {'extra_cases': searched, 'found': extra_found is not None}
+        if extra_found is not None:
+            case, obs, v = extra_found
+            replay_path = write_replay(pid, {'property': pid, 'kind': 'direct-violation', 'signature': v.get('signature'),
+                                             'case': case, 'observed': obs, 'detail': v.get('detail'), 'seed': seed, 'tier': tier,
+                                             'found_by': 'extended search after a broken obligation', 'broken_obligations': broken})
+            lines.append('VIOLATION property=%s replay=%s' % (pid, replay_path))
+            exit_code = 1
+    if broken and exit_code == 0 or (broken and replay and not new_viol):
         payload = {'property': pid, 'kind': 'no-failing-input-found', 'broken': broken, 'seed': seed, 'tier': tier,
                    'report': report}
         if tie_fail:
